@@ -16,6 +16,11 @@ def main():
         build.build_driver(cfg["driver"], **cfg.get("driver_kw", {}))
     build.build_driver("d_alloc", uses_xsimd=True, extra=["-march=native"])
     build.build_driver("d_alloc", uses_xsimd=True, extra=["-march=native", "-fsanitize=address", "-fno-omit-frame-pointer", "-g"])
+    build.build_driver("d_cplx")
+    build.build_shims(["cplx"])
+    build.build_fuzzers("fuzz_mem", props.FUZZ_TARGETS)
+    build.build_fuzzers("fuzz_lanes", props.FUZZ_TARGETS, ["-DXSV_ORACLE=13"])
+    build.build_fuzzers("fuzz_lanes", props.FUZZ_TARGETS, ["-DXSV_ORACLE=14"])
     for f in getattr(props, "SETUP_EXTRA", []):
         f()
     print("setup ok")
